@@ -16,6 +16,6 @@ MANIFEST = {
     "category": "proof",
     "design_ref": "DESIGN.md §5 C02",
     "technique": "Lean canonical LR(1) construction validated by the verified certificate checkers; theorems relating any two certified automata of a grammar; per-grammar comparison of conflicts, state counts and parse results with the real (Pager) automaton",
-    "text": "Theorems (Props/C02.lean) for two automata of the same grammar that both pass the validators, and EVERY input: whatever the canonical parser accepts, the minimised parser accepts with a tree of the same shape (same_tree); they accept the same inputs, exactly the sentences (same_language); neither reports an error prematurely (same_first_error_partial). Per generated grammar: if the certified canonical automaton is conflict-free (the grammar is LR(1)), the real construction must report no conflicts, must not have more states, must pass the validators, and the real parser's tree / first-error position is compared with the canonical parser's on every generated input.",
-    "note": "Pager's global theorem (weak compatibility never creates a conflict for an LR(1) grammar) is not re-proved: it is validated per grammar against the certified canonical construction. Equality of first-error positions is proved only up to 'neither is premature' (the viable-prefix half of C04 is missing) and is compared on every generated input. Trusted: Lean kernel, dump through the public API, orchestrator.",
+    "text": "Theorems (Props/C02.lean) for two automata of the same grammar that both pass the validators, and EVERY input: whatever the canonical parser accepts, the minimised parser accepts with a tree of the same shape (same_tree); they accept the same inputs, exactly the sentences (same_language); neither reports an error prematurely (same_first_error_partial); if both also pass checkVP they report their error at the same lexeme (same_first_error). Per generated grammar: if the certified canonical automaton is conflict-free (the grammar is LR(1)), the real construction must report no conflicts, must not have more states, must pass the validators, and the real parser's tree / first-error position is compared with the canonical parser's on every generated input.",
+    "note": "Pager's global theorem (weak compatibility never creates a conflict for an LR(1) grammar) is not re-proved: it is validated per grammar against the certified canonical construction. checkVP (the viable-prefix certificate) is demanded of both automata when every rule of the grammar is productive; for grammars with unproductive rules equality of first-error positions is only compared per input. Trusted: Lean kernel, dump through the public API, orchestrator.",
 }
